@@ -39,9 +39,9 @@ CFG = {
         "C08_merc_ell_inv_of_converged", "C08_imlfn_fixed", "C08_imlfn_stationary", "C08_eqdc_inv_of_converged",
         "C08_tmerc_footpoint_fixed", "C08_aeaPhi1z_fixed", "C08_eqdc_sphere_inv", "C08_aea_sphere_inv",
         "C08_eqdc_sphere_inv_south", "C08_aea_sphere_inv_south", "lcc_chain", "C08_lcc_sphere_inv", "C08_lcc_inv_of_converged",
-        "aea_chain", "C08_aea_inv_of_converged", "C08_tmerc_sphere_inv", "C08_geodetic_fixed", "C08_geodetic_roundtrip_h0", "C08_krovak_lat_fixed",
+        "aea_chain", "C08_aea_inv_of_converged", "C08_tmerc_sphere_inv", "C08_geodetic_fixed", "C08_geodetic_roundtrip_h0", "C08_krovak_lat_fixed", "krovak_rotation", "C08_krovak_sphere_chain_inv",
         "logTs_strictAnti", "tsfnz_injective", "C08_phi2z_fixed_unique", "merc_chain", "C08_merc_ell_inv_exact", "C08_lcc_inv_exact",
-        "mlfn_strictMono", "C08_imlfn_fixed_unique"]] + [
+        "mlfn_strictMono", "C08_imlfn_fixed_unique", "eqdc_chain", "C08_eqdc_inv_exact"]] + [
         # tie T1: model = definitions regenerated from the current Go source (rfl)
         T + "Ties." + n for n in ["tie_initMerc", "tie_fwdMerc", "tie_invMerc", "tie_initLcc", "tie_fwdLcc", "tie_invLcc",
                                   "tie_initAea", "tie_fwdAea", "tie_invAea", "tie_aeaPhi1zStep", "tie_initEqdc", "tie_fwdEqdc",
